@@ -117,10 +117,9 @@ func NewBr(target *Block) *TermBr {
 
 // Succs returns the successor basic blocks of the terminator.
 func (term *TermBr) Succs() []*Block {
-	// Cache successors if not present.
-	if term.Successors == nil {
-		term.Successors = []*Block{term.Target.(*Block)}
-	}
+	// Derive the successors from the targets on every call; a target may have
+	// been replaced through Operands since the last call.
+	term.Successors = []*Block{term.Target.(*Block)}
 	return term.Successors
 }
 
@@ -167,10 +166,9 @@ func NewCondBr(cond value.Value, targetTrue, targetFalse *Block) *TermCondBr {
 
 // Succs returns the successor basic blocks of the terminator.
 func (term *TermCondBr) Succs() []*Block {
-	// Cache successors if not present.
-	if term.Successors == nil {
-		term.Successors = []*Block{term.TargetTrue.(*Block), term.TargetFalse.(*Block)}
-	}
+	// Derive the successors from the targets on every call; a target may have
+	// been replaced through Operands since the last call.
+	term.Successors = []*Block{term.TargetTrue.(*Block), term.TargetFalse.(*Block)}
 	return term.Successors
 }
 
@@ -217,15 +215,14 @@ func NewSwitch(x value.Value, targetDefault *Block, cases ...*Case) *TermSwitch 
 
 // Succs returns the successor basic blocks of the terminator.
 func (term *TermSwitch) Succs() []*Block {
-	// Cache successors if not present.
-	if term.Successors == nil {
-		succs := make([]*Block, 0, 1+len(term.Cases))
-		succs = append(succs, term.TargetDefault.(*Block))
-		for _, c := range term.Cases {
-			succs = append(succs, c.Target.(*Block))
-		}
-		term.Successors = succs
+	// Derive the successors from the targets on every call; a target may have
+	// been replaced through Operands since the last call.
+	succs := make([]*Block, 0, 1+len(term.Cases))
+	succs = append(succs, term.TargetDefault.(*Block))
+	for _, c := range term.Cases {
+		succs = append(succs, c.Target.(*Block))
 	}
+	term.Successors = succs
 	return term.Successors
 }
 
@@ -309,12 +306,12 @@ func NewIndirectBr(addr value.Value, validTargets ...*Block) *TermIndirectBr {
 
 // Succs returns the successor basic blocks of the terminator.
 func (term *TermIndirectBr) Succs() []*Block {
-	// Cache successors if not present.
-	if term.Successors == nil {
-		// convert ValidTargets slice to []*ir.Block.
-		for _, target := range term.ValidTargets {
-			term.Successors = append(term.Successors, target.(*Block))
-		}
+	// Derive the successors from the targets on every call; a target may have
+	// been replaced through Operands since the last call.
+	term.Successors = nil
+	// convert ValidTargets slice to []*ir.Block.
+	for _, target := range term.ValidTargets {
+		term.Successors = append(term.Successors, target.(*Block))
 	}
 	return term.Successors
 }
@@ -420,10 +417,9 @@ func (term *TermInvoke) Type() types.Type {
 
 // Succs returns the successor basic blocks of the terminator.
 func (term *TermInvoke) Succs() []*Block {
-	// Cache successors if not present.
-	if term.Successors == nil {
-		term.Successors = []*Block{term.NormalRetTarget.(*Block), term.ExceptionRetTarget.(*Block)}
-	}
+	// Derive the successors from the targets on every call; a target may have
+	// been replaced through Operands since the last call.
+	term.Successors = []*Block{term.NormalRetTarget.(*Block), term.ExceptionRetTarget.(*Block)}
 	return term.Successors
 }
 
@@ -581,13 +577,12 @@ func (term *TermCallBr) Type() types.Type {
 
 // Succs returns the successor basic blocks of the terminator.
 func (term *TermCallBr) Succs() []*Block {
-	// Cache successors if not present.
-	if term.Successors == nil {
-		term.Successors = []*Block{term.NormalRetTarget.(*Block)}
-		// Convert OtherRetTargets slice to []*ir.Block.
-		for _, otherRetTarget := range term.OtherRetTargets {
-			term.Successors = append(term.Successors, otherRetTarget.(*Block))
-		}
+	// Derive the successors from the targets on every call; a target may have
+	// been replaced through Operands since the last call.
+	term.Successors = []*Block{term.NormalRetTarget.(*Block)}
+	// Convert OtherRetTargets slice to []*ir.Block.
+	for _, otherRetTarget := range term.OtherRetTargets {
+		term.Successors = append(term.Successors, otherRetTarget.(*Block))
 	}
 	return term.Successors
 }
@@ -774,15 +769,15 @@ func (term *TermCatchSwitch) Type() types.Type {
 
 // Succs returns the successor basic blocks of the terminator.
 func (term *TermCatchSwitch) Succs() []*Block {
-	// Cache successors if not present.
-	if term.Successors == nil {
-		// convert Handlers slice to []*ir.Block.
-		for _, handler := range term.Handlers {
-			term.Successors = append(term.Successors, handler.(*Block))
-		}
-		if defaultUnwindTarget, ok := term.DefaultUnwindTarget.(*Block); ok {
-			term.Successors = append(term.Successors, defaultUnwindTarget)
-		}
+	// Derive the successors from the targets on every call; a target may have
+	// been replaced through Operands since the last call.
+	term.Successors = nil
+	// convert Handlers slice to []*ir.Block.
+	for _, handler := range term.Handlers {
+		term.Successors = append(term.Successors, handler.(*Block))
+	}
+	if defaultUnwindTarget, ok := term.DefaultUnwindTarget.(*Block); ok {
+		term.Successors = append(term.Successors, defaultUnwindTarget)
 	}
 	return term.Successors
 }
@@ -850,10 +845,9 @@ func NewCatchRet(catchPad *InstCatchPad, target *Block) *TermCatchRet {
 
 // Succs returns the successor basic blocks of the terminator.
 func (term *TermCatchRet) Succs() []*Block {
-	// Cache successors if not present.
-	if term.Successors == nil {
-		term.Successors = []*Block{term.Target.(*Block)}
-	}
+	// Derive the successors from the targets on every call; a target may have
+	// been replaced through Operands since the last call.
+	term.Successors = []*Block{term.Target.(*Block)}
 	return term.Successors
 }
 
@@ -911,13 +905,12 @@ func NewCleanupRet(cleanupPad *InstCleanupPad, unwindTarget *Block) *TermCleanup
 
 // Succs returns the successor basic blocks of the terminator.
 func (term *TermCleanupRet) Succs() []*Block {
-	// Cache successors if not present.
-	if term.Successors == nil {
-		if unwindTarget, ok := term.UnwindTarget.(*Block); ok {
-			term.Successors = []*Block{unwindTarget}
-		} else {
-			term.Successors = []*Block{}
-		}
+	// Derive the successors from the targets on every call; a target may have
+	// been replaced through Operands since the last call.
+	if unwindTarget, ok := term.UnwindTarget.(*Block); ok {
+		term.Successors = []*Block{unwindTarget}
+	} else {
+		term.Successors = []*Block{}
 	}
 	return term.Successors
 }
